@@ -8,7 +8,8 @@ the replay checks against the real `zkDCS` (`Zk.opAcquire`, `Zk.opRelease`).
 
 E5 (environment assumption of the property's first clause, see DESIGN.md): the server expires a
 session only after its client has noticed the loss (cache dropped by `handleSessionEvent`) and while
-no operation of that client is in flight.  go-zookeeper's receive time-out (2/3 of the session
+no ReleaseLock of that client is between its read and its delete (`expire`: no operation at all in flight;
+`expireAcq`: an AcquireLock may be in flight).  go-zookeeper's receive time-out (2/3 of the session
 time-out) is what makes the first half true in a deployment; it is runtime behaviour and not modelled.
 `Step.expireAny` is the same step without E5, used for the counter-models.
 -/
@@ -46,6 +47,8 @@ inductive Step
   | fail (c : Nat) (e : Err)            -- the pending primitive fails without being executed
   | event (c : Nat)                     -- c handles a non-HasSession event: cache dropped
   | expire (c : Nat)                    -- the server ends c's session (E5-guarded)
+  | expireAcq (c : Nat)                 -- … also in the middle of an AcquireLock of c (weaker guard: only the cache must
+                                        --   have been dropped and no ReleaseLock of c may be in flight)
   | expireAny (c : Nat)                 -- … without the guard
   | reconnect (c : Nat)                 -- c (whose session is gone) gets a fresh session
   deriving Repr, DecidableEq
@@ -121,6 +124,10 @@ def step (σ : Sys) : Step → Sys
   | .expire i =>
     match σ.clients[i]? with
     | some c => if c.cache.isNone && c.prog.isNone then { σ with srv := σ.srv.expire c.sid } else σ
+    | none => σ
+  | .expireAcq i =>
+    match σ.clients[i]? with
+    | some c => if c.cache.isNone && (c.prog.isNone || c.acquiring) then { σ with srv := σ.srv.expire c.sid } else σ
     | none => σ
   | .expireAny i =>
     match σ.clients[i]? with
